@@ -1157,7 +1157,10 @@ def run_glue_wrap(case):
         pass
     ctx = {"MemoryCacher": lambda: M.MemoryCacher(), "SharedMem": lambda: SharedMem(), "DiskCacher": lambda: M.DiskCacher(d),
            "UserDisk": lambda: UserDisk(d), "NullCacher": lambda: M.NullCacher(), "UserNull": lambda: UserNull()}[kind]()
-    out = {"kind": kind, "caching": "Null" not in kind}
+    outer = bool(case.get("outer"))
+    if outer:
+        ctx = M.ConcurrentCacher(ctx)      # the installed cacher is already process safe (nested multiprocessor / set by the user)
+    out = {"kind": kind, "caching": "Null" not in kind, "outer": outer}
     undo = patch_time(M, type("T", (), {"sleep": staticmethod(lambda s=0: realtime.sleep(0.001)),
                                         "__getattr__": lambda self, nm: getattr(realtime, nm)})())
     try:
@@ -1183,10 +1186,26 @@ def run_glue_wrap(case):
                 st["inside"] -= 1
             return ["line1", "line2"]
 
+        started = threading.Event()
+        if outer:
+            out["shares_table"] = (getattr(w, "_cache", None) is ctx) or (getattr(w, "_array", 0) is ctx._array and getattr(w, "_lock", 0) is ctx._lock)
+            inner_getter = getter
+
+            def getter():                    # noqa: the first getter announces that a holder of the OUTER cacher is mid-write
+                started.set()
+                return inner_getter()
+
         def worker(i):
             try:
-                bar.wait(timeout=5)
-                with w.get_set("entry", getter) as v:
+                if outer:
+                    # thread 0 = another user of the installed cacher, mid-write; thread 1 = a worker going through what it was given
+                    if i == 1:
+                        started.wait(timeout=5)
+                    target = ctx if i == 0 else w
+                else:
+                    bar.wait(timeout=5)
+                    target = w
+                with target.get_set("entry", getter) as v:
                     res[i] = [x.strip() for x in v]
             except Exception as e:
                 res[i] = "raised:" + type(e).__name__
@@ -1200,6 +1219,8 @@ def run_glue_wrap(case):
         out["values"] = res
         if isinstance(w, M.ConcurrentCacher) and not out["alive"]:
             out["array_nonzero"] = [[i, v] for i, v in enumerate(w._array) if v != 0][:4]
+            if outer:
+                out["array_nonzero"] += [[i, v] for i, v in enumerate(ctx._array) if v != 0][:4]
     finally:
         for name, val in undo:
             setattr(M, name, val)
